@@ -148,19 +148,35 @@ def slug(s, n=48):
     return re.sub(r"[^A-Za-z0-9_]+", "-", s).strip("-")[:n]
 
 
+def _tb_frames(exc):
+    """(filename, function) per traceback frame, outermost first - from the code objects, never from source files on disk
+    (the tree may be edited/committed to while a run is in progress, which would make linecache lie)."""
+    out, tb = [], getattr(exc, "__traceback__", None)
+    while tb is not None:
+        code = tb.tb_frame.f_code
+        out.append((code.co_filename.replace("\\", "/"), code.co_name))
+        tb = tb.tb_next
+    return out
+
+
 def escape_key(role, exc):
-    """Classify an escaped exception by mechanism: innermost autobahn frame (function + source line)."""
-    func, line = "?", "?"
+    """Classify an escaped exception by mechanism: exception type / innermost autobahn function / the function it had called
+    ('-' = a builtin, then followed by the first words of the message with quoted and numeric parts removed)."""
+    func, callee = "?", "-"
     try:
-        for fr in reversed(traceback.extract_tb(exc.__traceback__)):
-            if "/autobahn/" in fr.filename.replace("\\", "/"):
-                func, line = fr.name, slug(fr.line or "", 40)
+        frames = _tb_frames(exc)
+        for k in range(len(frames) - 1, -1, -1):
+            if "/autobahn/" in frames[k][0]:
+                func = frames[k][1]
+                callee = frames[k + 1][1] if k + 1 < len(frames) else "-"
                 break
     except Exception:
         pass
-    return "C07/%s/escaped/%s/%s/%s" % (role, type(exc).__name__, func, line)
-
-
+    if callee != "-":
+        return "C07/%s/escaped/%s/%s/%s" % (role, type(exc).__name__, func, callee)
+    msg = re.sub(r"\"[^\"]*\"|'[^']*'|0x[0-9a-fA-F]+|[0-9]+", " ", str(exc))
+    words = re.findall(r"[A-Za-z_]+", msg)[:4]
+    return "C07/%s/escaped/%s/%s/-/%s" % (role, type(exc).__name__, func, "-".join(words) or "none")
 
 
 SEG_SMALL_ONLY = ["whole", "bytewise", "random", "halves", "small"]
@@ -1074,12 +1090,16 @@ def judge(role, case, ep, w, R, fw, data, verdict, ocfg, oht, t_fed, extra_post)
         R.count("hostile_inputs_monitored")
     if esc:
         for e in esc:
-            if any(fr.name == "processData" for fr in traceback.extract_tb(e.exc.__traceback__)):
+            if any(fn == "processData" for _f, fn in _tb_frames(e.exc)):
                 # raised by the FRAME parser on octets that followed a completed handshake (e.g. a mutated trailing frame): the
                 # subject of C02/C12/C16, not of the opening handshake
                 R.count("post_handshake_frame_escapes_out_of_scope")
                 continue
-            viol(escape_key(role, e.exc), "exception reached the networking framework (%s): %r" % (e.where, e.exc),
+            key = escape_key(role, e.exc)
+            if role == "server":
+                # input class: the status-page side path is only reachable for a request without Upgrade field
+                key += "/no-upgrade-field" if "upgrade-missing" in verdict.reasons else "/upgrade-request"
+            viol(key, "exception reached the networking framework (%s): %r" % (e.where, e.exc),
                  traceback="".join(traceback.format_exception(type(e.exc), e.exc, e.exc.__traceback__))[-1500:])
             R.seen("escaped_exception_types", type(e.exc).__name__)
         return True      # the framework tore the connection down: nothing further to compare
